@@ -7,10 +7,15 @@
 // the methods of im::HashSet, `Entry` / `entry` / `or_insert`, and the depot-usage vocabulary.  NEW assumptions of this file:
 // im::HashMap::get_mut (A-im) and the uninterpreted `spec_new_fast` (what Transition::new_fast builds).  Everything else is open
 // spec functions and proved lemmas.
-// LAST SECTION: the vocabulary of the contracts of Network::end_depots_sorted_by_distance_from / Schedule::find_best_start_depot_
-// for_spawning / find_best_end_depot_for_despawning, COPIED (text unchanged) from env/depot_choice_shim.vs (which declares UsageMap,
-// sp_spawned, … again and cannot be included), lemma_depot_without_type_limit_suffices from slices/depot_choice.vs, and NEW:
+// LAST BUT ONE SECTION: the vocabulary of the contracts of Network::end_depots_sorted_by_distance_from / Schedule::find_best_start_
+// depot_for_spawning / find_best_end_depot_for_despawning, COPIED (text unchanged) from env/depot_choice_shim.vs (which declares
+// UsageMap, sp_spawned, … again and cannot be included), lemma_depot_without_type_limit_suffices from slices/depot_choice.vs, and NEW:
 // Schedule::{improve_progress, dp_room_ok, end_is_nearest}.  No assumption in that section.
+// LAST SECTION (CLOSURE): the results of the depot-only operations satisfy dp_ok / rc_base / dp_transitions_ok again.  ONE new
+// assumption: axiom_sched_vehicles_frame (A-iter: the listing only depends on the network's vehicle types and the id lists).
+// given_ok / new_fast_post are the vocabulary of the contract of Transition::new_fast (text of env/new_fast_shim.vs / the header of
+// slices/new_fast.vs); the assumption itself is the stub in slices/depot_ops.vs.  Everything else there: open spec functions and
+// proved lemmas (the counting lemmas dpcl_* are copied from env/sched_ctor_shim.vs / env/add_path_shim.vs, text unchanged).
 
 // ---- A-im (copied from env/depot_usage_shim.vs): methods of im::HashSet --------------------------------
 impl<T> self::im_set::HashSet<T> {
@@ -1194,5 +1199,594 @@ impl Schedule {
     pub open spec fn end_is_nearest(&self, v: VehicleIdx, t: Tour) -> bool {
         let o = self.tours@[v];
         self.network.nearest_end_depot(sp_end_depot(&t), self.network.sp_node(o.nodes@[o.nodes@.len() - 2]).sp_end_location())
+    }
+}
+
+// =====================================================================================================
+// CLOSURE (C10 "after any sequence of schedule modifications", the induction step): the result of a depot-only operation
+// satisfies the invariant bundle of its own precondition again -- dp_ok, rc_base, dp_transitions_ok.  Everything in this
+// section is open spec functions and proved lemmas, EXCEPT axiom_sched_vehicles_frame (A-iter, NEW) and the vocabulary of
+// the contract of Transition::new_fast (given_ok / new_fast_post: text of slices/new_fast.vs / env/new_fast_shim.vs).
+// =====================================================================================================
+
+/// A-iter (NEW; frame of the uninterpreted listing `sched_vehicles`): the order in which Schedule::vehicles_iter_all yields the
+/// vehicles only depends on the vehicle types of the network and on the id lists -- its body is
+/// `self.network.vehicle_types().iter().collect::<Vec<_>>().into_iter().flat_map(|vt| self.vehicles_iter(vt))` with
+/// vehicles_iter(vt) = `self.vehicle_ids_grouped_and_sorted[&vt].iter().copied()`: no other field of the schedule is read.
+/// Without it NO listing conjunct of dp_ok could be stated for the result (sched_vehicles is uninterpreted per schedule).
+pub axiom fn axiom_sched_vehicles_frame(a: &Schedule, b: &Schedule)
+    requires
+        sched_types(a) == sched_types(b),
+        a.vehicle_ids_grouped_and_sorted@ == b.vehicle_ids_grouped_and_sorted@,
+    ensures sched_vehicles(a) == sched_vehicles(b);
+
+// ---- the contract of Transition::new_fast that slices/new_fast.vs justifies -------------------------------------------------
+/// PRECONDITION of Transition::new_fast in slices/new_fast.vs (text copied from env/new_fast_shim.vs): every given vehicle has an
+/// admissible tour (real, well-formed, of this network, counter within +-2^40), no vehicle is listed twice, at most 2^17 vehicles
+pub open spec fn given_ok(net: &Network, tours: Map<VehicleIdx, Tour>, vs: Seq<VehicleIdx>) -> bool {
+    &&& net.wf()
+    &&& vs.no_duplicates()
+    &&& vs.len() <= max_vehicles()
+    &&& cycle_tours_ok(net, tours, vs)
+}
+/// POSTCONDITION of Transition::new_fast that slices/new_fast.vs justifies (its header, "CONTRACT this justifies for stubs"):
+/// consistent with the tours (C15: Transition::wf), exactly the listed vehicles as members (C10), no empty cycle slot, totals
+/// exact (part of wf), violation within [0, len * 2^41]
+pub open spec fn new_fast_post(r: &Transition, net: &Network, tours: Map<VehicleIdx, Tour>, vs: Seq<VehicleIdx>) -> bool {
+    &&& r.wf(net, tours)
+    &&& forall|v: VehicleIdx| #[trigger] r.has_vehicle(v) <==> vs.contains(v)
+    &&& r.total_len() == vs.len()
+    &&& r.empty_cycles@.len() == 0
+    &&& 0 <= r.total_maintenance_violation <= vs.len() * vehicle_bound()
+}
+/// the rebuilt transition of type vt is what that contract promises, PROVIDED its precondition holds for the type's id list and
+/// the given tours (the depot-only operations do not require given_ok: see the header of slices/depot_ops.vs)
+pub open spec fn rebuilt_ok(ids: IdLists, tours: Map<VehicleIdx, Tour>, net: Network, vt: VehicleTypeIdx) -> bool {
+    given_ok(&net, tours, ids[vt]@) ==> new_fast_post(&rebuilt(ids, tours, net, vt), &net, tours, ids[vt]@)
+}
+/// C15 / C10 for the rebuilt transitions: the transition of every listed type whose id list and tours meet the precondition of
+/// Transition::new_fast is consistent with the tours and holds exactly the listed vehicles
+pub open spec fn rebuilt_exact(net: &Network, trs: Map<VehicleTypeIdx, Transition>, ids: IdLists, tours: Map<VehicleIdx, Tour>, list: Seq<VehicleTypeIdx>) -> bool {
+    forall|i: int| 0 <= i < list.len() && given_ok(net, tours, ids[#[trigger] list[i]]@) ==> new_fast_post(&trs[list[i]], net, tours, ids[list[i]]@)
+}
+
+// ---- rc_base, split into its structural conjuncts and its two magnitude conjuncts ----------------------------------------------
+/// hypothesis on the RESULT under which magnitude conjunct 1 of rc_base holds again: the transition of every listed (= rebuilt)
+/// type holds at least as many vehicles as the type's id list lists (under given_ok: exactly as many, see rebuilt_exact)
+pub open spec fn lens_cover(trs: Map<VehicleTypeIdx, Transition>, ids: IdLists, list: Seq<VehicleTypeIdx>) -> bool {
+    forall|i: int| 0 <= i < list.len() ==> ids[#[trigger] list[i]]@.len() <= trs[list[i]].total_len()
+}
+/// hypothesis on the RESULT under which magnitude conjunct 2 of rc_base holds again: the rebuilt transitions hold no more
+/// vehicles than the ones they replace
+pub open spec fn lens_not_grown(trs0: Map<VehicleTypeIdx, Transition>, trs: Map<VehicleTypeIdx, Transition>, list: Seq<VehicleTypeIdx>) -> bool {
+    forall|i: int| 0 <= i < list.len() ==> trs[#[trigger] list[i]].total_len() <= trs0[list[i]].total_len()
+}
+/// magnitude conjunct 1 of rc_base (text of rc_base): every transition's violation is at most 2^41 per vehicle
+pub open spec fn rc_viol_small(trs: Map<VehicleTypeIdx, Transition>) -> bool {
+    forall|vt: VehicleTypeIdx| #[trigger] trs.contains_key(vt) ==> 0 <= trs[vt].total_maintenance_violation <= trs[vt].total_len() * vehicle_bound()
+}
+impl Schedule {
+    /// the conjuncts of rc_base that are no magnitudes (text of rc_base): the network's types are duplicate-free and exactly the
+    /// keys of the transitions, every listed type is one of them and has an id list, every listed id has a tour, C09 violation sum
+    pub open spec fn rc_struct(&self, trs: Map<VehicleTypeIdx, Transition>, mv: int, ids: IdLists, tours: Map<VehicleIdx, Tour>, list: Seq<VehicleTypeIdx>) -> bool {
+        let vts = sched_types(self);
+        &&& vts.no_duplicates()
+        &&& forall|vt: VehicleTypeIdx| #[trigger] trs.contains_key(vt) <==> vts.contains(vt)
+        &&& forall|i: int| 0 <= i < list.len() ==> vts.contains(#[trigger] list[i]) && ids.contains_key(list[i])
+        &&& forall|i: int, j: int| 0 <= i < list.len() && 0 <= j < ids[list[i]]@.len() ==> tours.contains_key(#[trigger] ids[#[trigger] list[i]]@[j])
+        &&& mv == viol_sum(trs, vts)
+    }
+    /// magnitude conjunct 2 of rc_base (text of rc_base): at most 2^18 vehicles in transitions and id lists together
+    pub open spec fn rc_cap_small(&self, trs: Map<VehicleTypeIdx, Transition>, ids: IdLists) -> bool {
+        cap_sum(trs, ids, sched_types(self)) <= 2 * max_vehicles()
+    }
+}
+/// rc_base is exactly the three parts together
+pub proof fn lemma_rc_base_split(s: &Schedule, trs: Map<VehicleTypeIdx, Transition>, mv: int, ids: IdLists, tours: Map<VehicleIdx, Tour>, list: Seq<VehicleTypeIdx>)
+    ensures s.rc_base(trs, mv, ids, tours, list) <==> (s.rc_struct(trs, mv, ids, tours, list) && rc_viol_small(trs) && s.rc_cap_small(trs, ids)),
+{
+}
+/// the three parts only read the schedule's network
+pub proof fn lemma_rc_same_network(s: &Schedule, r: &Schedule, trs: Map<VehicleTypeIdx, Transition>, mv: int, ids: IdLists, tours: Map<VehicleIdx, Tour>, list: Seq<VehicleTypeIdx>)
+    requires r.network == s.network,
+    ensures
+        r.rc_struct(trs, mv, ids, tours, list) == s.rc_struct(trs, mv, ids, tours, list),
+        r.rc_cap_small(trs, ids) == s.rc_cap_small(trs, ids),
+        r.rc_base(trs, mv, ids, tours, list) == s.rc_base(trs, mv, ids, tours, list),
+{
+    assert(sched_types(r) == sched_types(s));
+}
+/// the number of vehicles in transitions and id lists does not grow if no transition grows
+pub proof fn lemma_cap_mono(trs0: Map<VehicleTypeIdx, Transition>, trs1: Map<VehicleTypeIdx, Transition>, ids: IdLists, vts: Seq<VehicleTypeIdx>)
+    requires forall|i: int| 0 <= i < vts.len() ==> trs1[#[trigger] vts[i]].total_len() <= trs0[vts[i]].total_len(),
+    ensures cap_sum(trs1, ids, vts) <= cap_sum(trs0, ids, vts),
+    decreases vts.len(),
+{
+    if vts.len() > 0 {
+        let d = vts.drop_last();
+        assert forall|i: int| 0 <= i < d.len() implies trs1[#[trigger] d[i]].total_len() <= trs0[d[i]].total_len() by { assert(d[i] == vts[i]); }
+        lemma_cap_mono(trs0, trs1, ids, d);
+        assert(vts.last() == vts[vts.len() - 1]);
+    }
+}
+/// CLOSURE of rc_base under recompute_transitions_and_violation_fast, from its precondition and its effect clauses (rc_post,
+/// violation sum): the structural conjuncts hold again unconditionally; magnitude conjunct 1 if the rebuilt transitions hold at
+/// least the listed vehicles (lens_cover), magnitude conjunct 2 if they hold no more vehicles than the old ones (lens_not_grown)
+pub proof fn lemma_rc_closure(s: &Schedule, trs0: Map<VehicleTypeIdx, Transition>, mv0: int, trs1: Map<VehicleTypeIdx, Transition>, mv1: int,
+        ids: IdLists, tours: Map<VehicleIdx, Tour>, list: Seq<VehicleTypeIdx>)
+    requires
+        s.rc_pre(trs0, mv0, ids, tours, list),
+        s.rc_post(trs0, trs1, ids, tours, list),
+        mv1 == viol_sum(trs1, sched_types(s)),
+    ensures
+        s.rc_struct(trs1, mv1, ids, tours, list),
+        lens_cover(trs1, ids, list) ==> rc_viol_small(trs1),
+        lens_not_grown(trs0, trs1, list) ==> s.rc_cap_small(trs1, ids),
+        lens_cover(trs1, ids, list) && lens_not_grown(trs0, trs1, list) ==> s.rc_base(trs1, mv1, ids, tours, list),
+{
+    let vts = sched_types(s);
+    assert forall|vt: VehicleTypeIdx| #[trigger] trs1.contains_key(vt) <==> vts.contains(vt) by {
+        assert(trs0.contains_key(vt) <==> trs1.contains_key(vt));
+    }
+    assert(s.rc_struct(trs1, mv1, ids, tours, list));
+    if lens_cover(trs1, ids, list) {
+        assert forall|vt: VehicleTypeIdx| #[trigger] trs1.contains_key(vt) implies 0 <= trs1[vt].total_maintenance_violation <= trs1[vt].total_len() * vehicle_bound() by {
+            assert(trs0.contains_key(vt));
+            if list.contains(vt) {
+                let i = choose|i: int| 0 <= i < list.len() && list[i] == vt;
+                assert(Schedule::rebuilt_small(ids, tours, *s.network, list[i]));
+                assert(trs1[vt] == rebuilt(ids, tours, *s.network, vt));
+                let a = ids[list[i]]@.len() as int;
+                let b = trs1[list[i]].total_len();
+                assert(a <= b);
+                assert(a * vehicle_bound() <= b * vehicle_bound()) by (nonlinear_arith) requires a <= b, vehicle_bound() > 0;
+            } else {
+                assert(trs1[vt] == trs0[vt]);
+            }
+        }
+    }
+    if lens_not_grown(trs0, trs1, list) {
+        assert forall|i: int| 0 <= i < vts.len() implies trs1[#[trigger] vts[i]].total_len() <= trs0[vts[i]].total_len() by {
+            let vt = vts[i];
+            assert(vts.contains(vt));
+            assert(trs0.contains_key(vt) && trs1.contains_key(vt));
+            if list.contains(vt) {
+                let j = choose|j: int| 0 <= j < list.len() && list[j] == vt;
+                assert(trs1[list[j]].total_len() <= trs0[list[j]].total_len());
+            } else {
+                assert(trs1[vt] == trs0[vt]);
+            }
+        }
+        lemma_cap_mono(trs0, trs1, ids, vts);
+    }
+    lemma_rc_base_split(s, trs1, mv1, ids, tours, list);
+}
+/// how a caller discharges the two hypotheses: if the id list of every listed type meets the precondition of Transition::new_fast
+/// (given_ok), the rebuilt transitions hold exactly the listed vehicles (rebuilt_exact); so lens_cover holds, and lens_not_grown
+/// holds if the old transitions held at least the listed vehicles (C10 "listings match": they hold exactly those)
+pub proof fn lemma_lens_from_exact(net: &Network, trs0: Map<VehicleTypeIdx, Transition>, trs1: Map<VehicleTypeIdx, Transition>, ids: IdLists, tours: Map<VehicleIdx, Tour>, list: Seq<VehicleTypeIdx>)
+    requires
+        rebuilt_exact(net, trs1, ids, tours, list),
+        forall|i: int| 0 <= i < list.len() ==> given_ok(net, tours, ids[#[trigger] list[i]]@),
+    ensures
+        lens_cover(trs1, ids, list),
+        forall|i: int| 0 <= i < list.len() ==> trs1[#[trigger] list[i]].total_len() == ids[list[i]]@.len(),
+        lens_cover(trs0, ids, list) ==> lens_not_grown(trs0, trs1, list),
+{
+    assert forall|i: int| 0 <= i < list.len() implies trs1[#[trigger] list[i]].total_len() == ids[list[i]]@.len() by {
+        assert(given_ok(net, tours, ids[list[i]]@));
+        assert(new_fast_post(&trs1[list[i]], net, tours, ids[list[i]]@));
+    }
+}
+
+// ---- dp_ok: closure --------------------------------------------------------------------------------------------------------------
+impl Schedule {
+    /// every conjunct of dp_ok (text of dp_ok) but the upper bound of the costs (`self.costs <= sched_cost_bound()`, a magnitude
+    /// that a depot-only operation does not preserve: the costs of a tour can grow by up to two legs' costs per vehicle)
+    pub open spec fn dp_ok_but_cost_bound(&self) -> bool {
+        let vs = sched_vehicles(self);
+        &&& self.network.wf()
+        &&& depot_nodes_ok(&self.network)
+        &&& vs.no_duplicates()
+        &&& vs.len() <= max_vehicles()
+        &&& forall|v: VehicleIdx| #[trigger] vs.contains(v) <==> self.tours@.contains_key(v)
+        &&& forall|v: VehicleIdx| #[trigger] self.tours@.contains_key(v) ==> self.dp_vehicle_ok(v)
+        &&& tours_costs(self.tours@, vs) <= self.costs
+        &&& usage_exact(self.depot_usage@, &self.network, self.vehicles@, self.tours@)
+    }
+    /// the effect clause "everything else untouched" of the depot-only operations (text of their `ensures`)
+    pub open spec fn rest_untouched(&self, r: &Schedule) -> bool {
+        r.tours@.dom() == self.tours@.dom()
+            && r.dummy_tours@ == self.dummy_tours@ && r.vehicles@ == self.vehicles@ && r.train_formations@ == self.train_formations@
+            && r.vehicle_ids_grouped_and_sorted@ == self.vehicle_ids_grouped_and_sorted@ && r.dummy_ids_sorted@ == self.dummy_ids_sorted@
+            && r.vehicle_counter == self.vehicle_counter && r.unserved_passengers == self.unserved_passengers && r.network == self.network
+    }
+    /// the effect clauses of reassign_end_depots_greedily the closure of dp_ok is derived from (text of its `ensures`)
+    pub open spec fn end_reassign_effect(&self, r: &Schedule) -> bool {
+        &&& forall|v: VehicleIdx| #[trigger] self.tours@.contains_key(v) ==> self.end_reassigned(v, r.tours@[v])
+        &&& self.rest_untouched(r)
+        &&& r.costs - tours_costs(r.tours@, sched_vehicles(self)) == self.costs - tours_costs(self.tours@, sched_vehicles(self))
+        &&& usage_exact(r.depot_usage@, &self.network, r.vehicles@, r.tours@)
+    }
+    /// the effect clauses of improve_depots the closure of dp_ok is derived from (text of its `ensures`; ids = the listed vehicles)
+    pub open spec fn improve_effect(&self, r: &Schedule, ids: Seq<VehicleIdx>) -> bool {
+        &&& forall|v: VehicleIdx| #[trigger] self.tours@.contains_key(v) ==> self.depots_improved(ids, v, r.tours@[v])
+        &&& self.rest_untouched(r)
+        &&& r.costs - tours_costs(r.tours@, ids) == self.costs - tours_costs(self.tours@, ids)
+        &&& usage_exact(r.depot_usage@, &self.network, r.vehicles@, r.tours@)
+    }
+}
+/// dp_ok is dp_ok_but_cost_bound plus the bound
+pub proof fn lemma_dp_ok_split(s: &Schedule)
+    ensures s.dp_ok() <==> (s.dp_ok_but_cost_bound() && s.costs <= sched_cost_bound()),
+{
+}
+/// membership after taking one element out of a duplicate-free list
+pub proof fn lemma_remove_no_dup(s: Seq<VehicleIdx>, q: int)
+    requires s.no_duplicates(), 0 <= q < s.len(),
+    ensures
+        s.remove(q).no_duplicates(),
+        forall|v: VehicleIdx| #[trigger] s.remove(q).contains(v) <==> (s.contains(v) && v != s[q]),
+{
+    let r = s.remove(q);
+    assert forall|a: int, b: int| 0 <= a < r.len() && 0 <= b < r.len() && a != b implies r[a] != r[b] by {
+        let a1 = if a < q { a } else { a + 1 };
+        let b1 = if b < q { b } else { b + 1 };
+        assert(r[a] == s[a1] && r[b] == s[b1]);
+    }
+    assert forall|v: VehicleIdx| #[trigger] r.contains(v) <==> (s.contains(v) && v != s[q]) by {
+        if r.contains(v) {
+            let a = choose|a: int| 0 <= a < r.len() && r[a] == v;
+            let a1 = if a < q { a } else { a + 1 };
+            assert(r[a] == s[a1]);
+            assert(s[a1] != s[q]);
+        }
+        if s.contains(v) && v != s[q] {
+            let j = choose|j: int| 0 <= j < s.len() && s[j] == v;
+            if j < q { assert(r[j] == v); } else { assert(r[j - 1] == v); }
+        }
+    }
+}
+/// C09: two tour maps that agree on the vehicles of vs that are not in ids: the costs of the tours of vs differ by what the costs
+/// of the tours of ids differ (ids duplicate-free and among the duplicate-free vs)
+pub proof fn lemma_costs_rest(t1: TourMap, t2: TourMap, ids: Seq<VehicleIdx>, vs: Seq<VehicleIdx>)
+    requires
+        ids.no_duplicates(), vs.no_duplicates(),
+        forall|i: int| 0 <= i < ids.len() ==> vs.contains(#[trigger] ids[i]),
+        forall|v: VehicleIdx| vs.contains(v) && !ids.contains(v) ==> #[trigger] t1[v] == t2[v],
+    ensures
+        pre_costs(t1, vs, vs.len() as int) - pre_costs(t1, ids, ids.len() as int) == pre_costs(t2, vs, vs.len() as int) - pre_costs(t2, ids, ids.len() as int),
+    decreases ids.len(),
+{
+    let n = ids.len() as int;
+    if n == 0 {
+        assert forall|j: int| 0 <= j < vs.len() implies t1[#[trigger] vs[j]] == t2[vs[j]] by {
+            assert(vs.contains(vs[j]));
+            assert(!ids.contains(vs[j]));
+        }
+        lemma_pre_costs_frame(t1, t2, vs, vs.len() as int);
+    } else {
+        let x = ids[n - 1];
+        let ids1 = ids.drop_last();
+        assert(vs.contains(ids[n - 1]));
+        let q = choose|q: int| 0 <= q < vs.len() && vs[q] == x;
+        let vs1 = vs.remove(q);
+        lemma_remove_no_dup(vs, q);
+        assert(ids1.no_duplicates());
+        assert forall|i: int| 0 <= i < ids1.len() implies vs1.contains(#[trigger] ids1[i]) by {
+            assert(ids1[i] == ids[i]);
+            assert(ids[i] != ids[n - 1]);
+            assert(vs.contains(ids[i]));
+        }
+        assert forall|v: VehicleIdx| vs1.contains(v) && !ids1.contains(v) implies #[trigger] t1[v] == t2[v] by {
+            assert(vs.contains(v) && v != x);
+            if ids.contains(v) {
+                let j = choose|j: int| 0 <= j < ids.len() && ids[j] == v;
+                assert(j < n - 1);
+                assert(ids1[j] == v);
+            }
+        }
+        lemma_costs_rest(t1, t2, ids1, vs1);
+        lemma_pre_costs_remove(t1, vs, q);
+        lemma_pre_costs_remove(t2, vs, q);
+        lemma_pre_costs_seq_frame(t1, ids, ids1, n - 1);
+        lemma_pre_costs_seq_frame(t2, ids, ids1, n - 1);
+    }
+}
+/// CLOSURE of dp_ok (all conjuncts but the cost bound), common part: the listing is the old one (A-iter frame), every vehicle's
+/// tour is admissible again, the costs follow the tours of the listed vehicles, the usage table is exact for the new tours
+pub proof fn lemma_close_dp(s: &Schedule, r: &Schedule, ids: Seq<VehicleIdx>)
+    requires
+        s.dp_ok(), s.rest_untouched(r),
+        forall|v: VehicleIdx| #[trigger] r.tours@.contains_key(v) ==> r.dp_vehicle_ok(v),
+        ids.no_duplicates(),
+        forall|i: int| 0 <= i < ids.len() ==> s.tours@.contains_key(#[trigger] ids[i]),
+        forall|v: VehicleIdx| s.tours@.contains_key(v) && !ids.contains(v) ==> #[trigger] r.tours@[v] == s.tours@[v],
+        r.costs - tours_costs(r.tours@, ids) == s.costs - tours_costs(s.tours@, ids),
+        usage_exact(r.depot_usage@, &s.network, r.vehicles@, r.tours@),
+    ensures
+        sched_vehicles(r) == sched_vehicles(s),
+        r.dp_ok_but_cost_bound(),
+{
+    let vs = sched_vehicles(s);
+    assert(sched_types(r) == sched_types(s));
+    axiom_sched_vehicles_frame(r, s);
+    assert forall|v: VehicleIdx| #[trigger] vs.contains(v) <==> r.tours@.contains_key(v) by {
+        assert(r.tours@.contains_key(v) <==> r.tours@.dom().contains(v));
+        assert(s.tours@.contains_key(v) <==> s.tours@.dom().contains(v));
+    }
+    assert forall|i: int| 0 <= i < ids.len() implies vs.contains(#[trigger] ids[i]) by {}
+    assert forall|v: VehicleIdx| vs.contains(v) && !ids.contains(v) implies #[trigger] r.tours@[v] == s.tours@[v] by {}
+    lemma_costs_rest(r.tours@, s.tours@, ids, vs);
+}
+/// CLOSURE of dp_ok under reassign_end_depots_greedily, from dp_ok of the input and the effect clauses of the contract
+pub proof fn lemma_close_dp_end_reassigned(s: &Schedule, r: &Schedule)
+    requires s.dp_ok(), s.end_reassign_effect(r),
+    ensures
+        sched_vehicles(r) == sched_vehicles(s),
+        r.dp_ok_but_cost_bound(),
+        r.costs <= sched_cost_bound() ==> r.dp_ok(),
+{
+    let vs = sched_vehicles(s);
+    assert forall|v: VehicleIdx| #[trigger] r.tours@.contains_key(v) implies r.dp_vehicle_ok(v) by {
+        assert(r.tours@.dom().contains(v));
+        assert(s.tours@.contains_key(v));
+        assert(s.dp_vehicle_ok(v));
+        assert(s.end_reassigned(v, r.tours@[v]));
+    }
+    assert forall|i: int| 0 <= i < vs.len() implies s.tours@.contains_key(#[trigger] vs[i]) by { assert(vs.contains(vs[i])); }
+    assert forall|v: VehicleIdx| s.tours@.contains_key(v) && !vs.contains(v) implies #[trigger] r.tours@[v] == s.tours@[v] by {}
+    lemma_close_dp(s, r, vs);
+    lemma_dp_ok_split(r);
+}
+/// CLOSURE of dp_ok under improve_depots, from dp_ok of the input and the effect clauses of the contract
+pub proof fn lemma_close_dp_improved(s: &Schedule, r: &Schedule, ids: Seq<VehicleIdx>)
+    requires s.dp_ok(), s.listed_ok(ids), s.improve_effect(r, ids),
+    ensures
+        sched_vehicles(r) == sched_vehicles(s),
+        r.dp_ok_but_cost_bound(),
+        r.costs <= sched_cost_bound() ==> r.dp_ok(),
+{
+    assert forall|v: VehicleIdx| #[trigger] r.tours@.contains_key(v) implies r.dp_vehicle_ok(v) by {
+        assert(r.tours@.dom().contains(v));
+        assert(s.tours@.contains_key(v));
+        assert(s.dp_vehicle_ok(v));
+        assert(s.depots_improved(ids, v, r.tours@[v]));
+    }
+    assert forall|v: VehicleIdx| s.tours@.contains_key(v) && !ids.contains(v) implies #[trigger] r.tours@[v] == s.tours@[v] by {
+        assert(s.depots_improved(ids, v, r.tours@[v]));
+    }
+    lemma_close_dp(s, r, ids);
+    lemma_dp_ok_split(r);
+}
+/// the same, for whatever schedule the function returns (the result only exists in the tail expression of the verbatim body)
+pub proof fn lemma_close_dp_end_reassigned_all(s: &Schedule)
+    requires s.dp_ok(),
+    ensures
+        forall|r: Schedule| #![trigger r.dp_ok_but_cost_bound()] s.end_reassign_effect(&r) ==> r.dp_ok_but_cost_bound(),
+        forall|r: Schedule| #![trigger sched_vehicles(&r)] s.rest_untouched(&r) ==> sched_vehicles(&r) == sched_vehicles(s),
+        forall|r: Schedule| #![trigger r.dp_ok()] s.end_reassign_effect(&r) && r.costs <= sched_cost_bound() ==> r.dp_ok(),
+{
+    assert forall|r: Schedule| #![trigger r.dp_ok_but_cost_bound()] s.end_reassign_effect(&r) implies r.dp_ok_but_cost_bound() by {
+        lemma_close_dp_end_reassigned(s, &r);
+    }
+    assert forall|r: Schedule| #![trigger sched_vehicles(&r)] s.rest_untouched(&r) implies sched_vehicles(&r) == sched_vehicles(s) by {
+        assert(sched_types(&r) == sched_types(s));
+        axiom_sched_vehicles_frame(&r, s);
+    }
+    assert forall|r: Schedule| #![trigger r.dp_ok()] s.end_reassign_effect(&r) && r.costs <= sched_cost_bound() implies r.dp_ok() by {
+        lemma_close_dp_end_reassigned(s, &r);
+    }
+}
+pub proof fn lemma_close_dp_improved_all(s: &Schedule, ids: Seq<VehicleIdx>)
+    requires s.dp_ok(), s.listed_ok(ids),
+    ensures
+        forall|r: Schedule| #![trigger r.dp_ok_but_cost_bound()] s.improve_effect(&r, ids) ==> r.dp_ok_but_cost_bound(),
+        forall|r: Schedule| #![trigger sched_vehicles(&r)] s.rest_untouched(&r) ==> sched_vehicles(&r) == sched_vehicles(s),
+        forall|r: Schedule| #![trigger r.dp_ok()] s.improve_effect(&r, ids) && r.costs <= sched_cost_bound() ==> r.dp_ok(),
+{
+    assert forall|r: Schedule| #![trigger r.dp_ok_but_cost_bound()] s.improve_effect(&r, ids) implies r.dp_ok_but_cost_bound() by {
+        lemma_close_dp_improved(s, &r, ids);
+    }
+    assert forall|r: Schedule| #![trigger sched_vehicles(&r)] s.rest_untouched(&r) implies sched_vehicles(&r) == sched_vehicles(s) by {
+        assert(sched_types(&r) == sched_types(s));
+        axiom_sched_vehicles_frame(&r, s);
+    }
+    assert forall|r: Schedule| #![trigger r.dp_ok()] s.improve_effect(&r, ids) && r.costs <= sched_cost_bound() implies r.dp_ok() by {
+        lemma_close_dp_improved(s, &r, ids);
+    }
+}
+/// the transition conjuncts: what recompute_transitions_and_violation_fast ensures w.r.t. the input schedule holds w.r.t. whatever
+/// schedule over the same network is built from the parts (rc_struct / rc_cap_small / rc_base only read the network's types)
+pub proof fn lemma_close_rc_all(s: &Schedule, trs: Map<VehicleTypeIdx, Transition>, mv: int, ids: IdLists, tours: Map<VehicleIdx, Tour>, list: Seq<VehicleTypeIdx>)
+    ensures
+        forall|r: Schedule| #![trigger r.rc_struct(trs, mv, ids, tours, list)] r.network == s.network ==> r.rc_struct(trs, mv, ids, tours, list) == s.rc_struct(trs, mv, ids, tours, list),
+        forall|r: Schedule| #![trigger r.rc_cap_small(trs, ids)] r.network == s.network ==> r.rc_cap_small(trs, ids) == s.rc_cap_small(trs, ids),
+        forall|r: Schedule| #![trigger r.rc_base(trs, mv, ids, tours, list)] r.network == s.network ==> r.rc_base(trs, mv, ids, tours, list) == s.rc_base(trs, mv, ids, tours, list),
+{
+    assert forall|r: Schedule| #![trigger r.rc_struct(trs, mv, ids, tours, list)] r.network == s.network implies r.rc_struct(trs, mv, ids, tours, list) == s.rc_struct(trs, mv, ids, tours, list) by {
+        lemma_rc_same_network(s, &r, trs, mv, ids, tours, list);
+    }
+    assert forall|r: Schedule| #![trigger r.rc_cap_small(trs, ids)] r.network == s.network implies r.rc_cap_small(trs, ids) == s.rc_cap_small(trs, ids) by {
+        lemma_rc_same_network(s, &r, trs, mv, ids, tours, list);
+    }
+    assert forall|r: Schedule| #![trigger r.rc_base(trs, mv, ids, tours, list)] r.network == s.network implies r.rc_base(trs, mv, ids, tours, list) == s.rc_base(trs, mv, ids, tours, list) by {
+        lemma_rc_same_network(s, &r, trs, mv, ids, tours, list);
+    }
+}
+/// recompute_transitions_for keeps everything dp_ok reads
+pub proof fn lemma_close_dp_same(s: &Schedule, r: &Schedule)
+    requires
+        s.dp_ok(), s.rest_untouched(r), r.tours@ == s.tours@, r.depot_usage@ == s.depot_usage@, r.costs == s.costs,
+    ensures r.dp_ok(), sched_vehicles(r) == sched_vehicles(s),
+{
+    assert(sched_types(r) == sched_types(s));
+    axiom_sched_vehicles_frame(r, s);
+    assert forall|v: VehicleIdx| #[trigger] r.tours@.contains_key(v) implies r.dp_vehicle_ok(v) by { assert(s.dp_vehicle_ok(v)); }
+}
+pub proof fn lemma_close_dp_same_all(s: &Schedule)
+    requires s.dp_ok(),
+    ensures
+        forall|r: Schedule| #![trigger r.dp_ok()] s.rest_untouched(&r) && r.tours@ == s.tours@ && r.depot_usage@ == s.depot_usage@ && r.costs == s.costs ==> r.dp_ok(),
+{
+    assert forall|r: Schedule| #![trigger r.dp_ok()] s.rest_untouched(&r) && r.tours@ == s.tours@ && r.depot_usage@ == s.depot_usage@ && r.costs == s.costs implies r.dp_ok() by {
+        lemma_close_dp_same(s, &r);
+    }
+}
+
+// ---- dp_transitions_ok: closure (improve_depots with a list) -------------------------------------------------------------------
+/// the vehicles in the first k cycles                                                  [text of env/sched_ctor_shim.vs]
+pub open spec fn dpcl_cyc_elems(t: TView, k: int) -> Set<VehicleIdx>
+    decreases k,
+{
+    if k <= 0 { Set::empty() } else { dpcl_cyc_elems(t, k - 1).union(t.cyc(k - 1).to_set()) }
+}
+pub proof fn dpcl_lemma_cyc_elems_member(t: TView, k: int, v: VehicleIdx)
+    requires 0 <= k <= t.n(),
+    ensures dpcl_cyc_elems(t, k).contains(v) <==> exists|i: int| 0 <= i < k && (#[trigger] t.cyc(i)).contains(v),
+    decreases k,
+{
+    if k > 0 {
+        dpcl_lemma_cyc_elems_member(t, k - 1, v);
+        if dpcl_cyc_elems(t, k).contains(v) {
+            if t.cyc(k - 1).contains(v) { assert(0 <= k - 1 < k && t.cyc(k - 1).contains(v)); }
+            else {
+                let i = choose|i: int| 0 <= i < k - 1 && (#[trigger] t.cyc(i)).contains(v);
+                assert(0 <= i < k && t.cyc(i).contains(v));
+            }
+        }
+        if exists|i: int| 0 <= i < k && (#[trigger] t.cyc(i)).contains(v) {
+            let i = choose|i: int| 0 <= i < k && (#[trigger] t.cyc(i)).contains(v);
+            if i < k - 1 { assert(0 <= i < k - 1 && t.cyc(i).contains(v)); }
+        }
+    }
+}
+pub proof fn dpcl_lemma_cyc_elems_len(t: TView, k: int)
+    requires t.wf_cycles(), 0 <= k <= t.n(),
+    ensures dpcl_cyc_elems(t, k).len() == sum_seq(lens_of(t.cycles).take(k)),
+    decreases k,
+{
+    let l = lens_of(t.cycles);
+    if k > 0 {
+        dpcl_lemma_cyc_elems_len(t, k - 1);
+        let a = dpcl_cyc_elems(t, k - 1);
+        let b = t.cyc(k - 1).to_set();
+        assert(a.disjoint(b)) by {
+            assert forall|v: VehicleIdx| !(a.contains(v) && b.contains(v)) by {
+                if a.contains(v) && b.contains(v) {
+                    dpcl_lemma_cyc_elems_member(t, k - 1, v);
+                    let i = choose|i: int| 0 <= i < k - 1 && (#[trigger] t.cyc(i)).contains(v);
+                    let x = choose|x: int| 0 <= x < t.cyc(i).len() && t.cyc(i)[x] == v;
+                    let ck = t.cyc(k - 1);
+                    let y = choose|y: int| 0 <= y < ck.len() && ck[y] == v;
+                    assert(t.cyc(i)[x] != t.cyc(k - 1)[y]);
+                }
+            }
+        }
+        vstd::set_lib::lemma_set_disjoint_lens(a, b);
+        t.cyc(k - 1).unique_seq_to_set();
+        assert(l.take(k).drop_last() =~= l.take(k - 1));
+        assert(l.take(k).last() == t.cyc(k - 1).len());
+    } else {
+        assert(l.take(0) =~= Seq::<int>::empty());
+    }
+}
+/// C15: a consistent transition holds as many vehicles as its lookup has keys          [text of env/sched_ctor_shim.vs]
+pub proof fn dpcl_lemma_total_len_is_lookup(t: TView)
+    requires t.wf_cycles(), t.wf_lookup(),
+    ensures t.total_len() == t.lookup.dom().len(),
+{
+    let l = lens_of(t.cycles);
+    dpcl_lemma_cyc_elems_len(t, t.n());
+    assert(l.take(t.n()) =~= l);
+    assert(dpcl_cyc_elems(t, t.n()) =~= t.lookup.dom()) by {
+        assert forall|v: VehicleIdx| dpcl_cyc_elems(t, t.n()).contains(v) <==> t.lookup.dom().contains(v) by {
+            dpcl_lemma_cyc_elems_member(t, t.n(), v);
+            if dpcl_cyc_elems(t, t.n()).contains(v) {
+                let i = choose|i: int| 0 <= i < t.n() && (#[trigger] t.cyc(i)).contains(v);
+                let x = choose|x: int| 0 <= x < t.cyc(i).len() && t.cyc(i)[x] == v;
+                assert(t.lookup.contains_key(t.cyc(i)[x]));
+            }
+            if t.lookup.contains_key(v) {
+                assert(0 <= t.cycle_of(v) < t.n() && t.cyc(t.cycle_of(v)).contains(v));
+            }
+        }
+    }
+}
+pub proof fn dpcl_lemma_len_sum_same(t1: Map<VehicleTypeIdx, Transition>, t2: Map<VehicleTypeIdx, Transition>, vts: Seq<VehicleTypeIdx>)
+    requires forall|i: int| 0 <= i < vts.len() ==> (#[trigger] t1[vts[i]]).total_len() == t2[vts[i]].total_len(),
+    ensures len_sum(t1, vts) == len_sum(t2, vts),
+    decreases vts.len(),
+{
+    if vts.len() > 0 {
+        let d = vts.drop_last();
+        assert forall|i: int| 0 <= i < d.len() implies (#[trigger] t1[d[i]]).total_len() == t2[d[i]].total_len() by { assert(d[i] == vts[i]); }
+        dpcl_lemma_len_sum_same(t1, t2, d);
+        assert(vts.last() == vts[vts.len() - 1]);
+    }
+}
+impl Schedule {
+    /// the effect clauses of improve_depots(Some(list)) the closure of dp_transitions_ok is derived from (text of its `ensures`)
+    pub open spec fn improve_listed_effect(&self, r: &Schedule, ids: Seq<VehicleIdx>) -> bool {
+        &&& self.rest_untouched(r)
+        &&& self.upd_post(self.next_period_transitions@, r.next_period_transitions@, r.maintenance_violation as int, ids, self.vehicles@, r.tours@)
+    }
+}
+/// CLOSURE of dp_transitions_ok(n) under improve_depots(Some(list)), from dp_transitions_ok(n) of the input and the effect clauses
+/// (the postcondition of update_transitions_and_violation_fast): one transition per type, each consistent with the NEW tours and
+/// holding exactly the vehicles of its type, violation sum exact, real vehicles have Vehicle-kind ids / tours / a transition --
+/// and the magnitude clause `len_sum + n <= 2^17` by counting: the cycles of every type hold exactly the vehicles of the type
+/// before and after, and the vehicles are untouched, so every transition holds as many vehicles as before
+pub proof fn lemma_close_transitions_listed(s: &Schedule, r: &Schedule, ids: Seq<VehicleIdx>, n: int)
+    requires s.dp_transitions_ok(n), s.improve_listed_effect(r, ids),
+    ensures
+        r.dp_transitions_ok(n),
+        len_sum(r.next_period_transitions@, sched_types(r)) == len_sum(s.next_period_transitions@, sched_types(s)),
+{
+    let trs0 = s.next_period_transitions@;
+    let trs1 = r.next_period_transitions@;
+    let vts = sched_types(s);
+    assert(sched_types(r) == vts);
+    assert forall|t: VehicleTypeIdx| #[trigger] trs1.contains_key(t) <==> vts.contains(t) by {
+        assert(trs0.contains_key(t) <==> trs1.contains_key(t));
+        assert(trs0.contains_key(t) <==> vts.contains(t));
+    }
+    assert forall|t: VehicleTypeIdx| #[trigger] trs1.contains_key(t) implies trs1[t].wf(&r.network, r.tours@) by {
+        assert(trs1[t].wf(&s.network, r.tours@));
+    }
+    assert forall|t: VehicleTypeIdx, u: VehicleIdx| #![trigger trs1[t].has_vehicle(u)] trs1.contains_key(t)
+        implies (trs1[t].has_vehicle(u) <==> r.vehicles@.contains_key(u) && r.type_of(u) == t) by {
+        assert(trs1[t].has_vehicle(u) <==> (s.vehicles@.contains_key(u) && vtype(s.vehicles@[u]) == t));
+        assert(vtype(r.vehicles@[u]) == r.type_of(u));
+    }
+    assert forall|i: int| 0 <= i < vts.len() implies (#[trigger] trs1[vts[i]]).total_len() == trs0[vts[i]].total_len() by {
+        let t = vts[i];
+        assert(vts.contains(t));
+        assert(trs0.contains_key(t) && trs1.contains_key(t));
+        assert(trs0[t].wf(&s.network, s.tours@) && trs1[t].wf(&s.network, r.tours@));
+        dpcl_lemma_total_len_is_lookup(trs0[t]@);
+        dpcl_lemma_total_len_is_lookup(trs1[t]@);
+        assert(trs0[t]@.lookup.dom() =~= trs1[t]@.lookup.dom()) by {
+            assert forall|u: VehicleIdx| trs0[t]@.lookup.dom().contains(u) <==> trs1[t]@.lookup.dom().contains(u) by {
+                assert(trs0[t].has_vehicle(u) <==> s.vehicles@.contains_key(u) && s.type_of(u) == t);
+                assert(trs1[t].has_vehicle(u) <==> (s.vehicles@.contains_key(u) && vtype(s.vehicles@[u]) == t));
+            }
+        }
+    }
+    dpcl_lemma_len_sum_same(trs1, trs0, vts);
+    assert forall|v: VehicleIdx| #[trigger] r.vehicles@.contains_key(v) implies v is Vehicle && r.tours@.contains_key(v) && trs1.contains_key(r.type_of(v)) by {
+        assert(s.vehicles@.contains_key(v));
+        assert(s.tours@.contains_key(v));
+        assert(s.tours@.dom().contains(v));
+        assert(r.tours@.dom().contains(v));
+        assert(trs0.contains_key(s.type_of(v)));
+    }
+}
+pub proof fn lemma_close_transitions_listed_all(s: &Schedule, ids: Seq<VehicleIdx>, n: int)
+    requires s.dp_transitions_ok(n),
+    ensures forall|r: Schedule| #![trigger r.dp_transitions_ok(n)] s.improve_listed_effect(&r, ids) ==> r.dp_transitions_ok(n),
+{
+    assert forall|r: Schedule| #![trigger r.dp_transitions_ok(n)] s.improve_listed_effect(&r, ids) implies r.dp_transitions_ok(n) by {
+        lemma_close_transitions_listed(s, &r, ids, n);
     }
 }
